@@ -30,6 +30,7 @@ sets = [
     ("C13atoms", lambda: prolog.replay_atom_order([])),
     ("C21", lambda: prolog.replay_atom_identity([])),
     ("C06order", lambda: prolog.replay_clause_order([])),
+    ("C55", lambda: prolog.replay_hex_escapes([])),
 ]
 only = sys.argv[1:]
 bad = 0
